@@ -1,13 +1,10 @@
-//! HashMap/HashSet. Without feature `sched`: std's. With it: drop-in wrappers with a fixed
-//! hasher (std's RandomState made iteration order of `HashSet<Arc<Rule>>`, and with it the
-//! sequence of lock operations, differ between executions, which breaks exact replay).
-#[cfg(not(feature = "sched"))]
-pub use std::collections::{HashMap, HashSet};
-
-#[cfg(feature = "sched")]
+//! HashMap/HashSet of the rule managers: drop-in wrappers around std's with a FIXED hasher, in
+//! both flavours. std's RandomState made the iteration order of `HashSet<Arc<Rule>>` (and with it
+//! the order of controllers, the sequence of lock operations and - because the rules' Hash
+//! includes the id while their Eq ignores it - even the outcome of set comparisons) differ from
+//! process to process, which breaks exact replay of a recorded sequence or schedule.
 pub use det::{HashMap, HashSet};
 
-#[cfg(feature = "sched")]
 mod det {
     use std::collections::hash_map::DefaultHasher;
     use std::hash::{BuildHasherDefault, Hash};
